@@ -582,8 +582,7 @@ func (x *c04ctx) refuse() {
 		if x.callReaches(call, x.deleters) {
 			return "session termination"
 		}
-		cc := call.Common()
-		if cc.IsInvoke() && strings.HasPrefix(ir.CallName(call), "(mcp.requestHandler)") {
+		if c.isDispatchCall(call) {
 			return "request dispatch"
 		}
 		for _, cal := range ir.Callees(c.G, call) {
